@@ -169,6 +169,7 @@ def run_crate(group, units, jobs, mem_gb, tag, only=None):
         shutil.copy(src_lock, dst_lock)
     filters = sorted({u.harness_filter for u in units})
     timeout = max(u.timeout for u in units)
+    mem_gb = max([mem_gb] + [u.mem for u in units if u.mem])
     cmd = kani_cmd(filters, jobs, timeout, json_out, target_dir)
     t0 = time.time()
     with open(logf, "w") as lf:
@@ -245,7 +246,13 @@ def interpret(run, units):
                 out["verdict"] = "fail"
         else:
             out["verdict"] = "error"
-            out["why"] = f"no verdict: exit_status={e.get('exit_status')} error_type={e.get('error_type')}"
+            st_ = e.get("exit_status")
+            hint = ""
+            if st_ in ("exit_code_6", "out_of_memory") or any(c["status"].lower() == "error" for c in checks):
+                hint = " (CBMC ran out of memory under the per-process limit, or aborted)"
+            elif st_ == "timeout":
+                hint = " (harness timeout)"
+            out["why"] = f"no verdict: exit_status={st_} error_type={e.get('error_type')}{hint}"
         res.append(out)
     for u in units:
         if id(u) not in seen_units:
